@@ -1,3 +1,9 @@
 import PyxisVerif.Props.C18
 #print axioms PyxisVerif.C18.parse_print_tokens_any
 #print axioms PyxisVerif.C18.parse_print_tokens
+#print axioms PyxisVerif.C18.int_value
+#print axioms PyxisVerif.C18.int_value_in_context
+#print axioms PyxisVerif.C18.int_value_canonical
+#print axioms PyxisVerif.C18.int_value_separators
+#print axioms PyxisVerif.C18.int_value_same
+#print axioms PyxisVerif.C18.parse_error_has_position
